@@ -221,9 +221,11 @@ func (ex *exampleValidator) validateExampleInResponse(resp *spec.Response, respo
 	if response.Examples != nil {
 		if response.Schema != nil {
 			if example, ok := response.Examples["application/json"]; ok {
-				res.MergeAsWarnings(
-					newSchemaValidator(response.Schema, s.spec.Spec(), path+".examples", s.KnownFormats, ex.schemaOptions).Validate(example),
-				)
+				if s.canValidateAgainst(response.Schema) {
+					res.MergeAsWarnings(
+						newSchemaValidator(response.Schema, s.spec.Spec(), path+".examples", s.KnownFormats, ex.schemaOptions).Validate(example),
+					)
+				}
 			} else {
 				// TODO: validate other media types too
 				res.AddWarnings(examplesMimeNotSupportedMsg(operationID, responseName))
